@@ -26,6 +26,7 @@ fn replay_here(cfg: &Cfg, p: &str) -> Result<i32, Harness> {
         "C16" => checks::c16::replay(cfg, &v)?,
         "C06" => checks::c06::replay(cfg, &v)?,
         "C03" => checks::c03::replay(cfg, &v)?,
+        "C05" => checks::c05::replay(cfg, &v)?,
         other => return Err(Harness(format!("no replay for {other}"))),
     };
     match got {
@@ -80,6 +81,7 @@ fn run() -> Result<i32, Harness> {
                 Some("C16") => checks::c16::check(&cfg),
                 Some("C06") => checks::c06::check(&cfg),
                 Some("C03") => checks::c03::check(&cfg),
+                Some("C05") => checks::c05::check(&cfg),
                 _ => usage(),
             }
         }
@@ -91,6 +93,7 @@ fn run() -> Result<i32, Harness> {
             big_stack(move || {
                 par::worker_loop(start, stride, n, |i| match id.as_str() {
                     "C03" => checks::c03::case_out(&cfg, i),
+                    "C05" => checks::c05::case_out(&cfg, i),
                     _ => usage(),
                 })
             });
